@@ -150,7 +150,8 @@ impl Scenario for Lifecycle {
             match k {
                 K_INPUT => {
                     let len = if aligned_bias { b * rng.range(0, 3) as usize } else { hashctx::chunk_len(rng, b, fill, false).min(4096) };
-                    t.ops.push(Op::new(h as u8, K_INPUT).len(len).seed(rng.data_seed()).off(rng.below(32) as u8));
+                    let dseed = match rng.below(16) { 0 => 0, 1 => 1, _ => rng.data_seed() };
+                    t.ops.push(Op::new(h as u8, K_INPUT).len(len).seed(dseed).off(rng.below(32) as u8));
                     sh[h].0 = fill + len;
                 }
                 K_RESULT => {
